@@ -628,6 +628,11 @@ class CallMixin:
             return o.bool_(o.dict_has(st, o.r(A(0)), A(1).e))
         if fn == "get":               # get(d, k) value stored under k (unspecified if absent)
             return SV(o.dict_get(st, o.r(A(0)), A(1).e))
+        if fn == "pos":               # insertion position of key k in dict d
+            d = o.r(A(0))
+            k = A(1).e
+            o.dict_wf_key(st, d, k)
+            return o.int_(z3.Select(st.rd("$pos", d), k))
         if fn == "forall":
             return self.spec_forall(st, e, cx)
         if fn in self.reg.specfuns:
